@@ -12,7 +12,7 @@ def showStr (s : Str) : String := bytesToHex (s.map UInt8.ofNat)
   `occ <payloadHex,…>`          impl = hex of a sentinel-delimited piece of text cut out of a real page, which was rendered
                                with the payload (sentinels included) in some data field; model = that same hex when it is the
                                output of one of the modelled chains (else `unmodelled`); SPECFAIL when it is no such output
-                               or is unsafe at that chain's place
+                               or is not safe at that chain's place
 -/
 def handle (line : String) : String :=
   let (inp, impl) := splitCase line
@@ -21,7 +21,7 @@ def handle (line : String) : String :=
     match Chain.ofName? ch, hexToBytes? p, hexToBytes? impl with
     | some c, some payload, some out =>
       let model := showStr (c.apply (toStr payload))
-      if checkP c (toStr out) then answer model else specFail model ("unsafe-in-" ++ c.name)
+      if checkP c (toStr out) then answer model else specFail model ("not-safe-in-" ++ c.name)
     | _, _, _ => badCase "esc fields"
   | ["occ", ps] =>
     match (ps.splitOn ",").mapM hexToBytes?, hexToBytes? impl with
@@ -29,9 +29,9 @@ def handle (line : String) : String :=
       let cands := payloads.map toStr
       if occurrenceOkAny cands (toStr occ) then answer impl
       else
-        -- not the output of any modelled chain, or such an output but unsafe (cannot happen if the theorems hold)
+        -- not the output of any modelled chain, or such an output but not safe (cannot happen if the theorems hold)
         match Chain.all.find? fun c => cands.any fun p => c.apply p == toStr occ with
-        | some c => specFail impl ("unsafe-in-" ++ c.name)
+        | some c => specFail impl ("not-safe-in-" ++ c.name)
         | none => specFail "unmodelled" "value-not-escaped-by-a-modelled-chain"
     | _, _ => badCase "occ fields"
   | _ => badCase "op"
